@@ -117,8 +117,17 @@ class _Connector:
                     self.last_error or IOError("connection failed")
                 )
             return
-        stream, future = self.connect(af, addr)
-        self.streams.add(stream)
+        try:
+            stream, future = self.connect(af, addr)
+        except Exception as e:
+            # A connect callable that raises (unsupported address family,
+            # failure to bind the source address) is a failed attempt;
+            # letting it escape from a callback would leave the future
+            # pending forever.
+            future = Future()
+            future.set_exception(e)
+        else:
+            self.streams.add(stream)
         future_add_done_callback(
             future, functools.partial(self.on_connect_done, addrs, af, addr)
         )
